@@ -51,18 +51,26 @@ def run(R, ctx):
         tb = [(bb, t) for bb, t in b.calls() if callee_name(t) == 'std::cell::RefCell::<T>::try_borrow_mut']
         if not tb:
             continue
-        fm = [(bb, t) for bb, t in b.calls() if re.search(c01.FMT, callee_name(t))]
-        if not fm:
-            continue
-        p = ctx.ip.prov(b.path)
+        # format sites of the Err(BorrowMutError) arm: in this body, or in a private helper the arm calls
         edges = try_edges(b, tb[0][1]['dest']['l'])
-        okrec = False
-        for bb, t in fm:
-            in_err = any(C.dominates(b, e[1], bb) for e in edges)
-            if in_err:
-                roots_ = p.op_roots(t['args'][0])
-                okrec = any(r_[0] == 'call' and re.search(r'Vec::<T>::(with_capacity|new)$', r_[1]) for r_ in roots_) and \
-                    not any(r_[0] == 'call' and 'try_borrow_mut' in r_[1] for r_ in roots_) and not any(r_[0] == 'tls' for r_ in roots_)
+        sites = []
+        for bb, t in b.calls():
+            if not any(C.dominates(b, e[1], bb) for e in edges):
+                continue
+            n_ = callee_name(t)
+            if re.search(c01.FMT, n_):
+                sites.append((b, t))
+            elif n_ in f.bodies:
+                for q in ctx.cg.reachable([n_], spawn=False, stop=c01.STOP_AT):
+                    if q in f.bodies:
+                        sites += [(f.bodies[q], t2) for _, t2 in f.bodies[q].calls() if re.search(c01.FMT, callee_name(t2))]
+        if not sites and not any(re.search(c01.FMT, callee_name(t)) for _, t in b.calls()):
+            continue
+        okrec = bool(sites)
+        for (sb_, t) in sites:
+            roots_ = {r_ for (_, r_) in ctx.ip.expand(sb_.path, ctx.ip.prov(sb_.path).op_roots(t['args'][0]))}
+            okrec = okrec and any(r_[0] == 'call' and re.search(r'Vec::<T>::(with_capacity|new)$', r_[1]) for r_ in roots_) and \
+                not any(r_[0] == 'call' and 'try_borrow_mut' in r_[1] for r_ in roots_) and not any(r_[0] == 'tls' for r_ in roots_)
         R.check('R03.2', f"{b.path}|recursion-arm-fresh-buffer", okrec, "Err(BorrowMutError) arm formats into a fresh Vec",
                 f"{b.path}: the recursive-logging arm does not format into a fresh buffer (it would corrupt the outer record's bytes)", where=b.loc())
 
